@@ -96,5 +96,35 @@ Section Pool.
   Definition prun (evs : list ev) : pstate := fold_left pstep evs pinit.
 End Pool.
 
+(* The same discipline holds for the second pooled resource that carries request data, the
+   gzip.Reader of gzipReaderPool (proxyapi/http_bulk.go): ServeHTTP takes it before reading the
+   body (acquireGzipReader) and gives it back once, by `defer putGzipReader(gz)`, when the request
+   is finished.  Both pools side by side: an event concerns the compressor pool or the gzip pool. *)
+Inductive ev2 := OnCompressor (e : ev) | OnGzip (e : ev).
+Definition gputs (k : kind) : nat := 1.
+Definition pstep2 (st : pstate * pstate) (e : ev2) : pstate * pstate :=
+  match e with
+  | OnCompressor e' => (pstep puts (fst st) e', snd st)
+  | OnGzip e' => (fst st, pstep gputs (snd st) e')
+  end.
+Definition prun2 (evs : list ev2) : pstate * pstate := fold_left pstep2 evs (pinit, pinit).
+
+(* the refuted variant for the gzip pool: the reader is put back when it is taken (the helper's
+   defer runs at once) while the request goes on reading through it *)
+Definition pstep_early (st : pstate) (e : ev) : pstate :=
+  match e with
+  | Start r pick =>
+      match nth_error (pool st) pick with
+      | Some o => {| held := (r, o) :: held st; pool := o :: remove_nth pick (pool st); next := next st |}
+      | None => {| held := (r, next st) :: held st; pool := next st :: pool st; next := S (next st) |}
+      end
+  | Finish r k =>
+      match take_req r (held st) with
+      | Some (o, h') => {| held := h'; pool := pool st; next := next st |}
+      | None => st
+      end
+  end.
+Definition prun_early (evs : list ev) : pstate := fold_left pstep_early evs pinit.
+
 (* before the seeded change was detected: an extra Put on the `total == 0` path *)
 Definition puts_v0 (k : kind) : nat := match k with KEmpty => 2 | _ => 1 end.
